@@ -254,16 +254,42 @@ func checkC16(c *Ctx) {
 			continue
 		}
 		r.Fn(fnName(f))
-		ws := callsTo(f, false, fnBufWrite)
+		// the writes of the command: its own, and those of the unexported helpers it calls
+		// (`rl.killSelection()` holding the Buffers.Write(Selection.Cut()) several commands share);
+		// each is judged in the function that contains it
+		type hostedWrite struct {
+			host *ssa.Function
+			w    ssa.CallInstruction
+		}
+		var ws []hostedWrite
+		hosts := []*ssa.Function{f}
+		for _, w := range callsTo(f, false, fnBufWrite) {
+			ws = append(ws, hostedWrite{f, w})
+		}
+		seenHost := map[*ssa.Function]bool{f: true}
+		for _, cl := range allCalls(f, false) {
+			h := staticCallee(cl)
+			if h == nil || seenHost[h] || !inRepo(h) || !isPrivateHelper(h) || len(h.Blocks) == 0 {
+				continue
+			}
+			seenHost[h] = true
+			hw := callsTo(h, false, fnBufWrite)
+			for _, w := range hw {
+				ws = append(ws, hostedWrite{h, w})
+			}
+			if len(hw) > 0 {
+				hosts = append(hosts, h)
+			}
+		}
 		if len(ws) == 0 {
 			r.Bad("C16.kill-stores-cut", "command:"+cmd, p.Pos(f.Pos()), "kill command does not write to the kill buffers: yank cannot give the text back")
 			continue
 		}
-		for i, w := range ws {
-			idiom, ok, why := killWriteIdiom(p, f, w)
+		for i, hw := range ws {
+			idiom, ok, why := killWriteIdiom(p, hw.host, hw.w)
 			key := fmt.Sprintf("command:%s:Buffers.Write#%d", cmd, i)
 			r.CallSites++
-			r.Check(ok, "C16.kill-stores-cut", key, p.IPos(w), "idiom "+idiom, why)
+			r.Check(ok, "C16.kill-stores-cut", key, p.IPos(hw.w), "idiom "+idiom, why)
 		}
 		if done[f] {
 			// aliases share one implementation: the removal rule is keyed per command anyway
@@ -271,16 +297,19 @@ func checkC16(c *Ctx) {
 		done[f] = true
 		// removal-recorded
 		var missing ssa.Instruction
-		eachInstr(f, func(in ssa.Instruction) {
-			if !isRemoval(in) {
-				return
-			}
-			before := pathAvoiding(f, nil, func(x ssa.Instruction) bool { return x == in }, isWrite)
-			after := pathAvoiding(f, in, isReturn, isWrite)
-			if before != nil && after != nil {
-				missing = in
-			}
-		})
+		for _, host := range hosts {
+			host := host
+			eachInstr(host, func(in ssa.Instruction) {
+				if !isRemoval(in) {
+					return
+				}
+				before := pathAvoiding(host, nil, func(x ssa.Instruction) bool { return x == in }, isWrite)
+				after := pathAvoiding(host, in, isReturn, isWrite)
+				if before != nil && after != nil {
+					missing = in
+				}
+			})
+		}
 		r.Check(missing == nil, "C16.removal-recorded", "command:"+cmd, p.Pos(f.Pos()), "every removing path writes", "a path removes text (`"+instrString(missing)+"`) without writing it to the kill buffers")
 	}
 
